@@ -56,6 +56,11 @@ def judge(events, outs):
         if cls in ("skipped", "catalogue-error", "crashed"):
             continue
 
+        for c in out.get("collateral") or []:
+            by = "same-object-call" if c.get("own") else "other-call"
+            V.append(_v("C02", f"C02/{flabel(c['fam'], c.get('profile'))}/{kind.lower()}/collateral-alters-{c['what']}:"
+                               f"{'+'.join(c['paths']) or 'state'}@{by}", ev))
+
         if kind == "MAKE_DATA":
             dfam = out.get("dfam")
             if out.get("inputs_changed"):
@@ -135,7 +140,15 @@ def judge(events, outs):
                 V.append(_v("C02", f"C02/{fl}/{op}/alters-data:{'+'.join(out['data_changed'])}", ev))
             if out.get("aborted_op") or cls == "aborted":
                 continue
-            # ---- C04 gate
+            # ---- C04 gate: the reference machine keeps its own memory of the object's gate state
+            g0, g1 = f.get("gate0"), f.get("gate_now")
+            model_dq = f["model_dq"]
+            if g0 is not None and f["fitted"] and fam != "caltrack":
+                changed = [k for k in ("dq", "tz") if (sorted(g0[k]) if k == "dq" else g0[k]) != (sorted(g1[k]) if k == "dq" else g1[k])]
+                if changed:
+                    V.append(_v("C04", f"C04/{fl}/gate-state/changed-by-history:{'+'.join(changed)}", ev,
+                                {"was": g0, "now": g1}))
+                model_dq = bool(g0["dq"])
             conds = []
             if not f["fitted"]:
                 conds.append("unfitted")
@@ -143,9 +156,10 @@ def judge(events, outs):
                 conds.append("foreign-type")
             if f.get("missing_feature"):
                 conds.append("missing-feature")
-            if fam != "caltrack" and f["fitted"] and not f["foreign_type"] and f["model_tz"] != f["data_tz"]:
+            model_tz = g0["tz"] if (g0 is not None and f["fitted"]) else f["model_tz"]
+            if fam != "caltrack" and f["fitted"] and not f["foreign_type"] and model_tz != f["data_tz"]:
                 conds.append("foreign-tz")
-            dqc = fam != "caltrack" and f["fitted"] and f["model_dq"] and not f["ignore"]
+            dqc = fam != "caltrack" and f["fitted"] and model_dq and not f["ignore"]
             if conds or dqc:
                 if cls == "returned":
                     V.append(_v("C04", f"C04/{fl}/predict/{(conds + ['dq'])[0]}/no-raise", ev, {"conds": conds, "dq": dqc}))
@@ -169,6 +183,11 @@ def judge(events, outs):
                                 {"got": cls, "original": out["store_ref_class"]}))
                 elif out.get("store_ref_diff"):
                     V.append(_v("C01", f"C01/{fl}/restored/predict/differs:{_cols(out['store_ref_diff'])}", ev))
+            rd = out.get("reader")
+            if rd and rd.get("bad"):
+                V.append(_v("C01", f"C01/{fl}/predict/formula-differs:{'+'.join(rd['bad'])}", ev))
+            if rd and rd.get("error"):
+                notes.append({"seq": ev["seq"], "note": "independent reader could not evaluate the document: " + rd["error"]})
             # ---- C03 same model state, same reporting recipe -> same frame
             if cls == "returned" and out.get("state_mode") == "json":
                 k = "pred|" + "|".join([out["model_digest"], out["rid"], str(f["ignore"]), str(a.get("agg"))])
@@ -214,6 +233,8 @@ def judge(events, outs):
                 continue
             if out.get("restore_same") is False:
                 V.append(_v("C02", f"C02/{fl}/store/alters-model", ev))
+            if out.get("same_as_fit") is False:
+                V.append(_v("C03", f"C03/{fl}/store/doc-differs-from-fit:{'+'.join(out.get('fit_diff_paths', []))}", ev))
             if out.get("same_as_origin") is False:
                 V.append(_v("C01", f"C01/{fl}/restored/store/doc-differs:{'+'.join(out.get('origin_diff_paths', []))}", ev))
 
